@@ -289,9 +289,12 @@ def subst(e, env):
 
 
 class Exec:
-    def __init__(self, bool_calls=(), id_calls=()):
+    def __init__(self, bool_calls=(), id_calls=(), inline=None, exists_of_id=()):
         self.bool_calls, self.id_calls = set(bool_calls), set(id_calls)
+        self.inline = inline or {}          # name -> (params, ast): `return f(args)` continues inside f (depth-limited)
+        self.exists_of_id = dict(exists_of_id)   # doesIdExist-like name -> getIdFromName-like name:  exists(getid(x)) ~ getid(x) != -1
         self.paths = set()
+        self.depth = 0
 
     def callee(self, e):
         return e[1][1] if e[0] == "call" and e[1][0] == "id" else None
@@ -317,7 +320,7 @@ class Exec:
             sb = show(b)
             if self.callee(a) in self.bool_calls and op in ("==", "!=") and sb in ("SNOOPY_TRUE", "SNOOPY_FALSE"):
                 truth = (op == "==") == (sb == "SNOOPY_TRUE")
-                return [[("" if truth else "!") + show(a)]]
+                return self.branches(a, truth)
             if self.callee(a) in self.id_calls and sb in ("0", "-1"):
                 if (op, sb) in (("<", "0"), ("<=", "-1"), ("==", "-1")):
                     return [[show(a) + "==-1"]]
@@ -328,6 +331,11 @@ class Exec:
             if op in (">", ">="):        # one spelling per relation:  a>b ~ !(a<=b),  a>=b ~ !(a<b)
                 return [["!" + show(a) + NEG[op] + sb]]
             return [[show(a) + op + sb]]
+        # exists(getIdFromName(x)): the id a lookup returns exists iff the lookup did not answer -1 (genericregistry semantics, Model.v)
+        if k == "call" and self.callee(c) in self.exists_of_id and len(c[2]) >= 1:
+            inner = c[2][-1]
+            if self.callee(inner) == self.exists_of_id[self.callee(c)]:
+                return [[("!" if pos else "") + show(inner) + "==-1"]]
         # plain truth value
         return [[("" if pos else "!") + show(c)]]
 
@@ -338,6 +346,14 @@ class Exec:
             for lits in self.branches(e[1], False):
                 self.ret(e[3], conds + lits, eff)
             return
+        f = self.callee(e) if e is not None else None
+        if f in self.inline and self.depth < 3:
+            params, ast = self.inline[f]
+            if len(params) == len(e[2]):
+                self.depth += 1
+                self.run([ast], dict(zip(params, e[2])), list(conds), list(eff), [])
+                self.depth -= 1
+                return
         cs = set(conds)
         if any(("!" + c) in cs for c in cs):
             return                                   # contradictory path
@@ -380,7 +396,7 @@ class Exec:
         raise Unsupported("statement kind " + k)
 
 
-def paths(src, name, bool_calls=(), id_calls=()):
+def parse_def(src, name):
     d = find_def(src, name)
     if d is None:
         raise Unsupported("definition of %s not found" % name)
@@ -389,8 +405,21 @@ def paths(src, name, bool_calls=(), id_calls=()):
     ast = p.stmt()
     if p.peek()[0] != "eof":
         raise Unsupported("trailing text")
+    return params, ast
+
+
+def paths(src, name, bool_calls=(), id_calls=(), inline_names=(), exists_of_id=()):
+    """inline_names: functions of `src` that may be entered when they are called in return position (`return f(args);`)"""
+    params, ast = parse_def(src, name)
+    inline = {}
+    for f in inline_names:
+        if f != name:
+            try:
+                inline[f] = parse_def(src, f)
+            except Unsupported:
+                pass
     env = dict((n, ("id", "$%d" % i)) for i, n in enumerate(params))
-    ex = Exec(bool_calls, id_calls)
+    ex = Exec(bool_calls, id_calls, inline, exists_of_id)
     ex.run([ast], env, [], [], [])
     return frozenset(ex.paths)
 
